@@ -1,6 +1,7 @@
 import JT.Basic.Bytes
 import JT.Model.Frame
 import JT.Model.Rtp
+import JT.Model.Miss
 /-!
 Line-protocol driver: one operation per input line, one result line per operation.
 `<idx> <op> <args…>` ↦ `<idx> <result>`.
@@ -27,6 +28,21 @@ partial def rtpAllLoop (cur : Bytes) (acc : List String) : String :=
   | .short => s!"n={acc.length} {";".intercalate acc.reverse} end=short left={hexOrDash cur}"
   | .unq => s!"n={acc.length} {";".intercalate acc.reverse} end=unq left={hexOrDash cur}"
 
+def parseSegs (s : String) : Option (List Miss.Seg) :=
+  if s = "-" then some [] else
+  (s.splitOn ",").mapM fun p =>
+    match p.splitOn ":" with
+    | [a, b] => do pure ⟨← a.toNat?, ← b.toNat?⟩
+    | _ => none
+
+def showSegs (l : List Miss.Seg) : String :=
+  if l.isEmpty then "-" else ",".intercalate (l.map fun s => s!"{s.off}:{s.len}")
+
+/-- body of the 0x9212 reply built by `T0x1212.ReplyBody` from the computed list -/
+def report9212 (name : Bytes) (ftype : Nat) (l : List Miss.Seg) : Bytes :=
+  [UInt8.ofNat name.length] ++ name ++ [UInt8.ofNat ftype, (if l.isEmpty then 0 else 1), UInt8.ofNat l.length]
+    ++ l.flatMap (fun s => toBE 4 s.off ++ toBE 4 s.len)
+
 def runOp (op : String) (args : List String) : String :=
   match op, args with
   | "dec", [f] =>
@@ -37,6 +53,14 @@ def runOp (op : String) (args : List String) : String :=
       | .ok m => showMsg m
       | .err => "err"
       | .panic => "panic"
+  | "miss", [f, c, segs] =>
+    match f.toNat?, c.toNat?, parseSegs segs with
+    | some f, some c, some l => let g := Miss.missSegments f c l; s!"n={g.length} {showSegs g}"
+    | _, _, _ => "bad-op"
+  | "rep", [f, c, segs, name, ft] =>
+    match f.toNat?, c.toNat?, parseSegs segs, ofHex name, ft.toNat? with
+    | some f, some c, some l, some nm, some ft => s!"ok {toHex (report9212 nm ft (Miss.missSegments f c l))}"
+    | _, _, _, _, _ => "bad-op"
   | "rtp", [f] => match ofHex f with | some bs => runRtp bs | none => "bad-op"
   | "rtpv", [f, _] => match ofHex f with | some bs => runRtp bs | none => "bad-op"
   | "rtpall", [f] => match ofHex f with | some bs => rtpAllLoop bs [] | none => "bad-op"
